@@ -172,6 +172,26 @@ def parse_obs(tok):
     return out
 
 
+_header_lines = None
+
+
+def assertion_text(loc):
+    """Source text of the assertion at `machine.hpp:<line>` in the current /repo header."""
+    global _header_lines
+    import os
+    if _header_lines is None:
+        repo = os.environ.get('VERIF_REPO', '/repo')
+        try:
+            _header_lines = open(os.path.join(repo, 'include', 'hfsm2', 'machine.hpp'), errors='replace').read().split('\n')
+        except OSError:
+            _header_lines = []
+    try:
+        n = int(loc.split(':')[1])
+        return ' '.join(_header_lines[n - 1].split())
+    except (ValueError, IndexError):
+        return '?'
+
+
 def judge_file(path, shape, config, rejections, stats, asserts):
     tree = build_tree(shape)
     for hdr, ops in scenarios(path):
@@ -193,9 +213,10 @@ def judge_file(path, shape, config, rejections, stats, asserts):
                 elif op.args and op.args[0][:1] == '1':
                     active[op.inst] = True
             for a in op.asserts:
-                asserts[a] = asserts.get(a, 0) + 1
+                expr = assertion_text(a)
+                asserts[expr] = asserts.get(expr, 0) + 1
                 rejections.setdefault('C11', []).append(dict(
-                    tag='assert', what='library assertion %s fired during `%s`' % (a, op.name),
+                    tag='assert', what='library assertion `%s` (%s) fired during `%s`' % (expr, a, op.name),
                     loc=a, replay=replay_text(hdr, ops, idx)))
             ncb = 0
             changed = False
